@@ -46,10 +46,9 @@ import (
 	"github.com/nuts-foundation/nuts-node/http/tokenV2"
 	"github.com/nuts-foundation/nuts-node/jsonld"
 	"github.com/nuts-foundation/nuts-node/network/dag"
-	"github.com/nuts-foundation/nuts-node/vcr"
+	"github.com/nuts-foundation/nuts-node/vcr/verifier"
 	"github.com/nuts-foundation/nuts-node/vcr/signature"
 	"github.com/nuts-foundation/nuts-node/vcr/signature/proof"
-	"github.com/nuts-foundation/nuts-node/vdr/didjwk"
 	"github.com/nuts-foundation/nuts-node/vdr/resolver"
 	"github.com/sirupsen/logrus"
 	"golang.org/x/crypto/ssh"
@@ -64,7 +63,9 @@ const audience = "verif-aud"
 
 type env struct {
 	t      *testing.T
-	vcr    vcr.TestVCRContext
+	ver    verifier.Verifier
+	mem    *memResolver
+	fp     *faultPlan // current environment-answer plan (nil: every dependency answers honestly)
 	loader jsonld.JSONLD
 	issuer enum.JOSEKey // P-256 did:jwk issuer of the credentials carried in presentations
 }
@@ -72,6 +73,7 @@ type env struct {
 type caseCtx struct {
 	fam                   string
 	signer, foreign, rogue enum.JOSEKey
+	near                  []enum.JOSEKey // resolvable parties whose DID is a near-miss of the signer's
 	signingPayload        string         // detached tokens: the bytes between the dots of the signing input
 	data                  map[string]any // consumer specific
 }
@@ -83,6 +85,7 @@ type consumer struct {
 	algFromKey  bool     // the algorithm is derived from the resolved key, the JWS header is opaque (JSON-LD proofs: LDProof.Verify)
 	bytesAreID  bool     // the received bytes ARE the object's identity (DAG: reference = SHA-256 of the bytes): no re-encoding is semantically identical
 	allowed     []string // algorithm labels the node documents as allowed for this consumer
+	deps        bool     // the key lookup has external dependencies (DID resolver, key callback, client metadata): the environment-answer dimension applies
 	// setup builds the valid original of the family and everything needed to run variants
 	setup func(e *env, c *caseCtx) enum.JOSEInput
 	run   func(e *env, c *caseCtx, token string) (bool, string)
@@ -176,7 +179,7 @@ func consumers() []consumer {
 	var list []consumer
 
 	// --- crypto.ParseJWS: generic compact JWS, key by kid callback
-	list = append(list, consumer{name: "ParseJWS", families: enum.AllFamilies, allowed: cat(es, ps, []string{"EdDSA"}),
+	list = append(list, consumer{name: "ParseJWS", families: enum.AllFamilies, deps: true, allowed: cat(es, ps, []string{"EdDSA"}),
 		setup: func(e *env, c *caseCtx) enum.JOSEInput {
 			c.signer.Kid, c.foreign.Kid = "kid-signer", "kid-foreign"
 			tok := signCompact(map[string]any{"kid": c.signer.Kid}, []byte(`{"hello":"verif"}`), c.signer, enum.DefaultAlg(c.fam))
@@ -184,6 +187,9 @@ func consumers() []consumer {
 		},
 		run: func(e *env, c *caseCtx, token string) (bool, string) {
 			_, err := nutsCrypto.ParseJWS([]byte(token), func(kid string) (crypto.PublicKey, error) {
+				if err := e.fp.hit("keycallback"); err != nil {
+					return nil, err
+				}
 				switch kid {
 				case c.signer.Kid:
 					return c.signer.Public(), nil
@@ -278,7 +284,11 @@ func consumers() []consumer {
 		if err != nil {
 			return false, err.Error()
 		}
-		err = dag.NewTransactionSignatureVerifier(mapNutsResolver{c.signer.Kid: c.signer.Public(), c.foreign.Kid: c.foreign.Public()})(nil, tx)
+		keys := map[string]crypto.PublicKey{c.signer.Kid: c.signer.Public(), c.foreign.Kid: c.foreign.Public()}
+		for _, nm := range c.near {
+			keys[nm.Kid] = nm.Public()
+		}
+		err = dag.NewTransactionSignatureVerifier(mapNutsResolver{keys: keys, e: e})(nil, tx)
 		return err == nil, fmt.Sprint(err)
 	}
 	dagKey := func(c *caseCtx, f enum.JOSEFacts) crypto.PublicKey {
@@ -295,6 +305,11 @@ func consumers() []consumer {
 		if f.HasKid && f.Kid == c.foreign.Kid {
 			return c.foreign.Public()
 		}
+		for _, nm := range c.near { // at the DAG seam every resolvable kid names its own key (no claimed issuer here)
+			if f.HasKid && f.Kid == nm.Kid {
+				return nm.Public()
+			}
+		}
 		return kidKey(c, f)
 	}
 	dagPayload := []byte(hash.SHA256Sum([]byte("verif payload")).String())
@@ -306,9 +321,15 @@ func consumers() []consumer {
 			h["jwk"] = enum.PublicJWK(c.signer.Public())
 			return enum.JOSEInput{Token: signCompact(h, dagPayload, c.signer, enum.DefaultAlg(c.fam))}
 		}, run: dagRun, keyFor: dagKey})
-	list = append(list, consumer{name: "dag-kid", families: dagFams, embeddedKey: true, bytesAreID: true, allowed: cat(es, ps),
+	list = append(list, consumer{name: "dag-kid", families: dagFams, embeddedKey: true, bytesAreID: true, deps: true, allowed: cat(es, ps),
 		setup: func(e *env, c *caseCtx) enum.JOSEInput {
 			c.signer.Kid, c.foreign.Kid = "did:nuts:signer#key-1", "did:nuts:foreign#key-1"
+			c.near = nil
+			for _, nm := range enum.NearMissDIDs("did:nuts:signer") {
+				k := runKey(e.t, "near-"+nm.Kind, enum.FamP256)
+				k.Name, k.Kid = nm.Kind, nm.DID+"#key-1"
+				c.near = append(c.near, k)
+			}
 			h := dagHdr()
 			h["kid"] = c.signer.Kid
 			return enum.JOSEInput{Token: signCompact(h, dagPayload, c.signer, enum.DefaultAlg(c.fam))}
@@ -326,9 +347,9 @@ func consumers() []consumer {
 		}
 		return nil
 	}
-	list = append(list, consumer{name: "vc-jwt", families: enum.AllFamilies, allowed: cat(es, ps, []string{"EdDSA"}),
+	list = append(list, consumer{name: "vc-jwt", families: enum.AllFamilies, deps: true, allowed: cat(es, ps, []string{"EdDSA"}),
 		setup: func(e *env, c *caseCtx) enum.JOSEInput {
-			c.signer.Kid, c.foreign.Kid = didJWK(c.signer.Public())+"#0", didJWK(c.foreign.Public())+"#0"
+			didParties(e, c, "vcjwt")
 			c.data["kidRequired"] = false
 			return enum.JOSEInput{Token: jwtVC(c.signer, "did:jwk:subject", enum.DefaultAlg(c.fam), now), FlipStride: 5}
 		},
@@ -340,14 +361,14 @@ func consumers() []consumer {
 			if cred.Format() != vc.JWTCredentialProofFormat {
 				return false, "not read as a JWT credential"
 			}
-			err = e.vcr.VCR.Verifier().Verify(*cred, true, true, nil)
+			err = e.ver.Verify(*cred, true, true, nil)
 			return err == nil, fmt.Sprint(err)
 		}, keyFor: didKey})
 
 	// --- vcr verifier: JWT presentation (signer = holder = subject of the carried credential)
-	list = append(list, consumer{name: "vp-jwt", families: enum.AllFamilies, allowed: cat(es, ps, []string{"EdDSA"}),
+	list = append(list, consumer{name: "vp-jwt", families: enum.AllFamilies, deps: true, allowed: cat(es, ps, []string{"EdDSA"}),
 		setup: func(e *env, c *caseCtx) enum.JOSEInput {
-			c.signer.Kid, c.foreign.Kid = didJWK(c.signer.Public())+"#0", didJWK(c.foreign.Public())+"#0"
+			didParties(e, c, "vpjwt")
 			c.data["kidRequired"] = true
 			inner := jwtVC(e.issuer, didOf(c.signer), "ES256", now)
 			cl := stdClaims(didOf(c.signer))
@@ -365,20 +386,24 @@ func consumers() []consumer {
 			if vp.Format() != vc.JWTPresentationProofFormat {
 				return false, "not read as a JWT presentation"
 			}
-			_, err = e.vcr.VCR.Verifier().VerifyVP(*vp, true, true, nil)
+			_, err = e.ver.VerifyVP(*vp, true, true, nil)
 			return err == nil, fmt.Sprint(err)
 		}, keyFor: didKey})
 
 	// --- JSON-LD proof (detached JWS inside proof.jws of a credential), through the verifier down to LDProof.Verify
-	list = append(list, consumer{name: "ld-proof", families: enum.AllFamilies, algFromKey: true, allowed: cat(es, ps, []string{"EdDSA"}),
+	list = append(list, consumer{name: "ld-proof", families: enum.AllFamilies, algFromKey: true, deps: true, allowed: cat(es, ps, []string{"EdDSA"}),
 		setup: func(e *env, c *caseCtx) enum.JOSEInput {
-			c.signer.Kid, c.foreign.Kid = didJWK(c.signer.Public())+"#0", didJWK(c.foreign.Public())+"#0"
+			didParties(e, c, "ldproof")
 			doc, tbs := ldVC(e, c.signer, c.signer.Kid, now)
 			c.data["doc"] = doc
 			c.signingPayload = tbs
 			// the same document with a proof made by ANOTHER resolvable party under that party's verificationMethod (key-source clause)
-			other, _ := ldVCWith(e, c.signer, c.foreign, c.foreign.Kid, now)
-			c.data["foreignDoc"] = other
+			others := map[string]map[string]any{}
+			others["foreign-party"], _ = ldVCWith(e, c.signer, c.foreign, c.foreign.Kid, now)
+			for _, nm := range c.near {
+				others["near-miss:"+nm.Name], _ = ldVCWith(e, c.signer, nm, nm.Kid, now)
+			}
+			c.data["foreignDocs"] = others
 			return enum.JOSEInput{Token: doc["proof"].(map[string]any)["jws"].(string), SigningPayload: tbs}
 		},
 		run: func(e *env, c *caseCtx, token string) (bool, string) {
@@ -390,9 +415,9 @@ func consumers() []consumer {
 		}})
 
 	// --- auth/api/iam JAR: request object; key by kid from the DID document AND in the client's published key set
-	list = append(list, consumer{name: "jar", families: enum.AllFamilies, allowed: cat(es, ps, []string{"EdDSA"}),
+	list = append(list, consumer{name: "jar", families: enum.AllFamilies, deps: true, allowed: cat(es, ps, []string{"EdDSA"}),
 		setup: func(e *env, c *caseCtx) enum.JOSEInput {
-			c.signer.Kid, c.foreign.Kid = didJWK(c.signer.Public())+"#0", didJWK(c.foreign.Public())+"#0"
+			didParties(e, c, "jar")
 			clientID := "https://client.example/oauth2/alice"
 			set := jwk.NewSet()
 			k, err := jwk.FromRaw(c.signer.Public())
@@ -401,7 +426,7 @@ func consumers() []consumer {
 			}
 			_ = k.Set(jwk.KeyIDKey, c.signer.Kid)
 			_ = set.AddKey(k)
-			c.data["auth"] = fakeAuth{client: fakeIAMClient{cfg: map[string]*oauth.OpenIDConfiguration{clientID: {Issuer: clientID, Subject: clientID, JWKs: set}}}}
+			c.data["auth"] = fakeAuth{client: fakeIAMClient{e: e, cfg: map[string]*oauth.OpenIDConfiguration{clientID: {Issuer: clientID, Subject: clientID, JWKs: set}}}}
 			c.data["clientID"] = clientID
 			cl := stdClaims(didOf(c.signer))
 			cl["client_id"], cl["aud"], cl["nonce"], cl["response_type"], cl["state"] = clientID, "https://as.example/oauth2/bob", "n-1", "code", "s-1"
@@ -410,16 +435,22 @@ func consumers() []consumer {
 		},
 		run: func(e *env, c *caseCtx, token string) (bool, string) {
 			_, err := iam.VerifJARParse(audit.TestContext(), c.data["auth"].(auth.AuthenticationServices),
-				resolver.DIDKeyResolver{Resolver: didjwk.NewResolver()}, token, c.data["clientID"].(string))
+				resolver.DIDKeyResolver{Resolver: e.mem}, token, c.data["clientID"].(string))
 			return err == nil, fmt.Sprint(err)
 		}, keyFor: func(c *caseCtx, f enum.JOSEFacts) crypto.PublicKey { return kidKey(c, f) }})
 	return list
 }
 
-type mapNutsResolver map[string]crypto.PublicKey
+type mapNutsResolver struct {
+	keys map[string]crypto.PublicKey
+	e    *env
+}
 
 func (m mapNutsResolver) ResolvePublicKey(kid string, _ []hash.SHA256Hash) (crypto.PublicKey, error) {
-	if k, ok := m[kid]; ok && kid != "" {
+	if err := m.e.fp.hit("nutskeyresolver.ResolvePublicKey"); err != nil {
+		return nil, err
+	}
+	if k, ok := m.keys[kid]; ok && kid != "" {
 		return k, nil
 	}
 	return nil, resolver.ErrKeyNotFound
@@ -434,10 +465,14 @@ func (f fakeAuth) IAMClient() iamclient.Client { return f.client }
 
 type fakeIAMClient struct {
 	iamclient.Client
+	e   *env
 	cfg map[string]*oauth.OpenIDConfiguration
 }
 
 func (f fakeIAMClient) OpenIDConfiguration(_ context.Context, issuer string) (*oauth.OpenIDConfiguration, error) {
+	if err := f.e.fp.hit("iamclient.OpenIDConfiguration"); err != nil {
+		return nil, err
+	}
 	if c, ok := f.cfg[issuer]; ok {
 		return c, nil
 	}
@@ -502,7 +537,7 @@ func verifyLD(e *env, doc map[string]any, jws string) (bool, string) {
 	if err != nil {
 		return false, "parse: " + err.Error()
 	}
-	err = e.vcr.VCR.Verifier().Verify(*cred, true, true, nil)
+	err = e.ver.Verify(*cred, true, true, nil)
 	return err == nil, fmt.Sprint(err)
 }
 
@@ -513,6 +548,7 @@ type replayCase struct {
 	Family   string `json:"family"`
 	Variant  string `json:"variant"`
 	Token    string `json:"token,omitempty"`
+	Env      string `json:"env,omitempty"`
 }
 
 func TestVerifC17(t *testing.T) {
@@ -528,8 +564,11 @@ func TestVerifC17(t *testing.T) {
 		"CR/LF inside or white space around the token, raw-JSON protected member) but decode to exactly one signature that satisfies the predicate - reported as observations")
 
 	e := &env{t: t, loader: jsonld.NewTestJSONLDManager(t)}
-	e.vcr = vcr.NewTestVCRContext(t, nutsCrypto.NewMemoryCryptoInstance(t))
-	e.issuer = didParty(t, "issuer", enum.FamP256)
+	e.mem = &memResolver{docs: map[string]*did.Document{}, fp: &e.fp}
+	e.ver = newVerifier(t, e.mem, e.loader)
+	e.issuer = mustKey(t, "issuer", enum.FamP256)
+	e.issuer.Kid = "did:web:issuer.example#key-1"
+	e.mem.register(e.issuer.Kid, e.issuer.Public())
 
 	var rc replayCase
 	replay := r.ReplayCase(&rc)
@@ -549,7 +588,7 @@ func TestVerifC17(t *testing.T) {
 			c.signer, c.foreign, c.rogue = runKey(t, "signer", fam), runKey(t, "foreign", fam), runKey(t, "rogue", enum.FamP256)
 			t0 := time.Now()
 			in := cons.setup(e, c)
-			in.Signer, in.Foreign, in.Rogue = c.signer, c.foreign, c.rogue
+			in.Signer, in.Foreign, in.Rogue, in.NearMiss = c.signer, c.foreign, c.rogue, c.near
 			if r.Thorough() {
 				in.FlipStride, in.FlipAllBits = 1, true
 			}
@@ -571,7 +610,7 @@ func TestVerifC17(t *testing.T) {
 			for _, v := range variants {
 				idx++
 				if replay {
-					if v.Name != rc.Variant {
+					if v.Name != rc.Variant || rc.Env != "" {
 						continue
 					}
 				} else if !r.Mine(idx) {
@@ -617,16 +656,73 @@ func TestVerifC17(t *testing.T) {
 				}
 			}
 			_ = t0
-			// key-source clause for the JSON-LD proof: the proof of ANOTHER resolvable party under its own verificationMethod, issuer unchanged
+			// key-source clause for the JSON-LD proof: the proof of ANOTHER resolvable party (unrelated, and every near-miss of the
+			// issuer's DID) under that party's own verificationMethod, issuer unchanged
 			if cons.name == "ld-proof" && !replay {
-				idx++
-				if r.Mine(idx) {
-					fd := c.data["foreignDoc"].(map[string]any)
-					ok, _ := safely(func() (bool, string) { return verifyLD(e, fd, fd["proof"].(map[string]any)["jws"].(string)) })
-					r.Eval("ld-proof|" + fam + "|key/foreign-verification-method")
-					if ok {
-						r.Violation("C17|key-source|ld-proof|key/foreign-party", "a JSON-LD credential whose proof was made by another resolvable party under that party's verificationMethod verifies for the claimed issuer", replayCase{Consumer: "ld-proof", Family: fam, Variant: "key/foreign-verification-method"})
+				docs := c.data["foreignDocs"].(map[string]map[string]any)
+				names := make([]string, 0, len(docs))
+				for n := range docs {
+					names = append(names, n)
+				}
+				sort.Strings(names)
+				for _, n := range names {
+					idx++
+					if !r.Mine(idx) {
+						continue
 					}
+					fd := docs[n]
+					ok, _ := safely(func() (bool, string) { return verifyLD(e, fd, fd["proof"].(map[string]any)["jws"].(string)) })
+					r.Eval("ld-proof|" + fam + "|key/verification-method:" + n)
+					if ok {
+						cl := "key/foreign-party"
+						if strings.HasPrefix(n, "near-miss") {
+							cl = "key/near-miss"
+						}
+						r.Violation("C17|key-source|ld-proof|"+cl, fmt.Sprintf("a JSON-LD credential whose proof was made by another resolvable party (%s) under that party's verificationMethod verifies for the claimed issuer", n), replayCase{Consumer: "ld-proof", Family: fam, Variant: "key/verification-method:" + n})
+					}
+				}
+			}
+			// environment-answer dimension (deviation bound 1): every call of an external dependency of the key lookup, in turn,
+			// answers {error, not found, time-out}; a fault may cause refusal, never acceptance under another key
+			if cons.deps {
+				for _, v := range variants {
+					if !(v.Class == "identity" || strings.HasPrefix(v.Class, "key/") || v.Class == "privjwk/rogue" || v.Class == "sigs/general-2" || v.Class == "alg/none") {
+						continue
+					}
+					idx++
+					if replay {
+						if v.Name != rc.Variant || rc.Env == "" {
+							continue
+						}
+					} else if !r.Mine(idx) {
+						continue
+					}
+					e.fp = &faultPlan{pos: -1}
+					safely(func() (bool, string) { return cons.run(e, c, v.Token) })
+					calls := e.fp.n
+					for k := 0; k < calls; k++ {
+						for _, ans := range faultAnswers {
+							if r.Expired() {
+								e.fp = nil
+								return
+							}
+							e.fp = &faultPlan{pos: k, answer: ans}
+							ok, _ := safely(func() (bool, string) { return cons.run(e, c, v.Token) })
+							envName := e.fp.dep + "=" + ans
+							r.Eval(fmt.Sprintf("%s|%s|%s|env:%s@%d", cons.name, fam, v.Name, envName, k))
+							if !ok {
+								r.Outcome(cons.name + " refused under fault")
+								continue
+							}
+							fd := enum.JOSEJudgeAccepted("C17", jc, v, c.signingPayload, fam)
+							r.Outcome(cons.name + " accepted under fault: " + fd.Kind)
+							if fd.Kind == "violation" {
+								r.Violation(fd.Signature+"|env:"+envName, fd.What+fmt.Sprintf(" - while call %d of the key lookup's dependencies (%s) answers %q", k, e.fp.dep, ans),
+									replayCase{Consumer: cons.name, Family: fam, Variant: v.Name, Token: v.Token, Env: fmt.Sprintf("%s@%d", envName, k)})
+							}
+						}
+					}
+					e.fp = nil
 				}
 			}
 		}
